@@ -86,6 +86,10 @@ def cases(ctx):
             x, y, z = (2 * c_[0].x - o[0].x + 600, 2 * c_[0].y - o[0].y + 400, 2 * c_[0].z - o[0].z)
             oxt = pdbio.atom_line("ATOM", 9990, "OXT", " ", resn, "A", upto, " ", x, y, z, elem="O")
             out.append((f"1HPX-A-ends-in-{resn}{upto}", C.join(ch + [oxt, C.TER]), []))
+    # two residues of one type that differ in their insertion code only (97 / 97A): their groups carry the same label, and
+    # each of them owes a block in the determinant table and a row in the summary
+    for src_, lines_, a1_, a2_ in C.adjacent_same_type(pad=3)[: (None if ctx.thorough() else 3)]:
+        out.append((f"same-type-twins-{src_}-{a1_[1]}", C.join(C.make_twins(lines_, a1_, a2_) + [C.TER]), []))
     # conformations that disagree on which group of a covalently coupled system titrates (methotrexate N1 / N8 next to
     # ASP A 27 of 4DFR, whose carboxylate gets a second location 0.3 A away)
     for sh in ([(300, 0, 0)] if not ctx.thorough() else [(300, 0, 0), (-300, 0, 0), (0, 300, 0), (0, 0, 300), (200, 200, -100)]):
